@@ -15,7 +15,7 @@ import (
 
 // C04 part 1: virtual-host precedence.
 //
-// Every ordered list of <=3 virtual hosts over the 12-domain alphabet (quick:
+// Every ordered list of <=3 virtual hosts over the 14-domain alphabet (quick:
 // one domain per virtual host, plus every list of <=2 virtual hosts with one or
 // two domains; thorough: one or two domains — every unordered pair, the equal
 // pair included — per virtual host) x every Host value of the alphabet.
